@@ -93,3 +93,15 @@ Example c13_example :
   Qeq_bool (qsum (censored_pmf [0; 1#4; 5#8; 7#8])) 1 = true /\
   Qeq_bool (last (censored_pmf [0; 1#4; 5#8; 7#8]) 0) (3#8) = true.
 Proof. vm_compute. split; reflexivity. Qed.
+
+(* ---------- tie by translation (gen/GenProbStruct.v is regenerated from $VERIF_REPO/src on every run; the translator accepts
+   exactly the statements around the third-party special functions, so a table that is cached, re-keyed or folded differently
+   fails it closed): the demand tables whose normalisation is proved above are built the way the code builds them - De Moor's
+   pmf is the CDF differenced with the tail folded into the last bin, Mirjalili's is the pmf with the remaining mass appended *)
+From MdpaxV Require Import Proofs.C16P.
+From MdpaxGen Require Import GenProbStruct.
+Theorem c13_generated_tables_fold_the_tail :
+  (forall cdf, gen_demoor_demand_probabilities cdf = censored_pmf cdf) /\
+  (forall pm, gen_mirjalili_demand_probabilities pm = add_last pm (1 - qsum pm)).
+Proof. split; reflexivity. Qed.
+Print Assumptions c13_generated_tables_fold_the_tail.
